@@ -73,6 +73,7 @@ int main(int argc, char* argv[])
     vt::Rng    rng(static_cast<uint64_t>(std::atoll(argv[2])));
     const auto part = std::atoll(argv[3]), parts = std::atoll(argv[4]), stride = std::atoll(argv[5]), nrand = std::atoll(argv[6]);
 
+    const auto runseed = static_cast<int64_t>(std::atoll(argv[2]) / 1000); // the offset of the seed stride rotates with VERIF_SEED
     // exhaustive part: n in 2..40, folds in 2..min(n, 12), seeds of the parameter domain (with the given stride)
     int64_t icase = 0;
     for (int64_t n = 2; n <= 40; ++n)
@@ -80,7 +81,7 @@ int main(int argc, char* argv[])
         const auto input = arange(0, n);
         for (int64_t folds = 2; folds <= std::min<int64_t>(n, 12); ++folds)
         {
-            for (int64_t seed = (n * 7 + folds) % stride; seed <= 1024; seed += stride)
+            for (int64_t seed = (n * 7 + folds + runseed) % stride; seed <= 1024; seed += stride)
             {
                 if ((icase++) % parts != part)
                 {
